@@ -31,10 +31,14 @@ package nfs
 // behind a barrier (K1), and makeFs returns with nothing pending (K2).
 // Start-up is single-threaded: the formatter owns the root inode (held[1]).
 //@ specfunc dle32(b uint64, o uint64) = uint32(dsk[b][o]) | uint32(dsk[b][o+1])<<8 | uint32(dsk[b][o+2])<<16 | uint32(dsk[b][o+3])<<24
+//@ specfunc lle32(b uint64, o uint64) = uint32(lview[b][o]) | uint32(lview[b][o+1])<<8 | uint32(lview[b][o+2])<<16 | uint32(lview[b][o+3])<<24
 //@ spec makeFs
 //@   props C01 C04 C15
-//@   requires superInv(super) && super.Disk.tag != 0 && held[1]
-//@   requires [zerobitmaps] forall b uint64, i uint64 :: 513 <= b && b < 515 + dsksize/32768 && i < 4096 ==> dsk[b][i] == 0
+//@   requires superInv(super) && super.Disk.tag != 0
+//@   requires [K0-unformatted] lle32(super.InodeStart(), 128) == 0 @C01 @C04
+//@   requires [R5-format-first] theBalloc == 0 @C01 @C15
+//@   entryassumes [boot-single-threaded] held[1]
+//@   entryassumes [boot-zero-disk] forall b uint64, i uint64 :: 513 <= b && b < 515 + dsksize/32768 && i < 4096 ==> dsk[b][i] == 0
 //@   panics_if !acceptedSize(dsksize)
 //@   allocates inode.Inode, []uint64, []uint8, marshal.Enc, cell:uint64, buf.Buf
 //@   modifies dsk, dpending, buf.Buf.dirty
@@ -51,6 +55,7 @@ package nfs
 //@   requires [R4-recovered] recovered @C01
 //@   allocates buf.Buf, inode.Inode, []uint64, cell:uint64, marshal.Dec
 //@   ensures result != nil && result.Inum == 1
+//@   ensures [R4-rootkind] uint32(result.Kind) == lle32(super.InodeStart(), 128) @C01
 
 // ---------------------------------------------------------------------
 // NFS handlers: every RPC is one transaction. Ghost typestate (lastst):
@@ -468,3 +473,23 @@ package nfs
 //@   loop 0 invariant [ready-tx] success ==> txOpen(op) && op.Fs == nfs.fsstate && allClean() && (forall i uint64 :: dirtyinum[i] ==> wroteinum[i])
 //@   loop 0 invariant [ready-dirs] success ==> renDirs(dipfrom, dipto, args)
 //@   loop 0 invariant [ready-names] success ==> renNames(dipfrom, dipto, frominum, args)
+
+// C01-R4/R5: start-up order. The log is recovered (obj.MkLog) before the root
+// inode and the bitmaps are read, both are read through the log, the disk is
+// formatted only when the recovered root inode says "unformatted", and the
+// allocators are built from the recovered bitmaps before the first
+// transaction (makeRootDir) runs.
+//@ spec (*Nfs).makeRootDir
+//@   assume
+//@   requires [R4-state] nfs != nil && fsInv(nfs.fsstate) @C01
+//@   modifies $TXMODS, $FILEMODS, $DIRMODS, $SHRINKMODS, dnames
+
+//@ spec MakeNfs
+//@   props C01 C10 C15 C11
+//@   requires d.tag != 0
+//@   entryassumes [boot-accepted-size] acceptedSize(dsksize)
+//@   entryassumes [boot-single-threaded] held[1]
+//@   entryassumes [boot-no-allocators] theBalloc == 0
+//@   modifies *
+//@   ensures [R4-up] result != nil && result.fsstate != nil && result.shrinkst != nil && result.Unstable @C01
+
